@@ -10,7 +10,7 @@ PROP = dict(
                     "(0..0x1100 swept completely at the end of each case and after every refused registration at capacity) and by name "
                     "(whole, length-limited, alias, 'name: symbol' descriptions) is compared with a shadow table, built-in sizes with "
                     "sizeof of the C types; all 256 message value format codes (mpt_msgvalfmt_typeid/_size/_code) and byte sizes 0..17 "
-                    "(mpt_type_int/uint) must be refused or name a built-in scalar type of exactly that size and kind.  A C++ leg (300 / 3000 processes) drives the same registry through the mpt::type_traits wrappers and "
+                    "(mpt_type_int/uint) must be refused or name a built-in scalar type of exactly that size and kind, the size being read independently from the documented bit layout of the format byte.  A C++ leg (300 / 3000 processes) drives the same registry through the mpt::type_traits wrappers and "
                     "the type_properties<T> templates.  Exploration, not proof."),
         level_note=("trusts the shadow table and the sizeof table in harness/c06_registry.c, gcc ASan+UBSan (malloc fill pattern makes "
                     "uninitialised size fields visible as wrong sizes; no memcheck leg: the runner builds the asan flavour only)"),
@@ -24,7 +24,7 @@ PROP = dict(
                            "capacity:basic": 64, "capacity:generic": 1792, "capacity:interface": 48, "capacity:metatype": 1791,
                            "exhausted:basic": 5, "exhausted:generic": 5, "exhausted:interface": 5, "exhausted:metatype": 5,
                            "monitor:sweep-after-exhaustion": 20,
-                           "mpt_msgvalfmt_typeid": 10000, "monitor:msgvalfmt-id-compared": 400, "monitor:msgvalfmt-round-trip": 400,
+                           "mpt_msgvalfmt_typeid": 10000, "mpt_msgvalfmt_size": 10000, "monitor:msgvalfmt-width-compared": 10000, "monitor:msgvalfmt-id-compared": 400, "monitor:msgvalfmt-round-trip": 400,
                            "refused:msgvalfmt": 8000, "mpt_msgvalfmt_code": 400, "mpt_type_int": 700, "mpt_type_uint": 700,
                            "monitor:type_int-compared": 300, "refused:type_int": 1000}),
               dict(name="c06_cxx", memcheck=100, src=["c06_cxx.cpp"], libs=["mpt++", "mptio", "mptplot", "mptcore"], batch=1,
